@@ -2,6 +2,7 @@
 Decided as an effect property: no call writes anything another call can
 read, and no call returns an object another call can reach."""
 import ast
+import os
 
 from .. import codec
 from .. import framepaths as F
@@ -21,6 +22,11 @@ RULES = {
              'activation',
     'C16.F': 'results are fresh: every mutable object reachable from a '
              'decoded frame is created in the activation tree of that call',
+    'C16.E': 'no ambient state: no expression of the package resolves to a '
+             'library name that reads or writes process-wide or per-thread '
+             'state (decimal context, locale, environment, clocks, random '
+             'sources, thread identity, context variables, interpreter '
+             'settings)',
     'C16.C': 'no memo: no caching decorator, function attribute, nonlocal '
              'state or module-level container both read and written',
 }
@@ -54,6 +60,34 @@ def shared_inventory(ctx):
                 out.append(('%s.%s' % (ci.qualname, name),
                             type(b.value).__name__))
     return out
+
+
+def scan_ambient(prog, module_infos):
+    """Every Name / Attribute load that statically resolves to a library
+    name in models.AMBIENT_STATE.  -> (names looked at, [(site, path)])"""
+    from .. import models
+    hits, n = [], 0
+    for mi in module_infos:
+        inner = set()
+        for node in ast.walk(mi.tree):
+            if isinstance(node, ast.Attribute):
+                inner.add(id(node.value))
+        for node in ast.walk(mi.tree):
+            if not isinstance(node, (ast.Name, ast.Attribute)) or \
+                    not isinstance(node.ctx, ast.Load):
+                continue
+            if id(node) in inner and not isinstance(node, ast.Name):
+                pass
+            try:
+                tgt = prog.resolve_static(mi, node, mi)
+            except Exception:
+                continue
+            if not (isinstance(tgt, tuple) and tgt and tgt[0] == 'ext'):
+                continue
+            n += 1
+            if models.ambient(tgt[1]) and id(node) not in inner:
+                hits.append(('%s:%d' % (mi.relpath, node.lineno), tgt[1]))
+    return n, hits
 
 
 def shared_effects(it, state_obj=None):
@@ -121,6 +155,41 @@ def run(chk, ctx):
            '%d functions scanned for stores through cls / class names / '
            'module aliases and for mutating calls on class-level tables' %
            nfun, nontrivial=True)
+    # ---- E: ambient state
+    n_ext, amb = scan_ambient(prog, prog.modules.values())
+    chk.ob('C16.E', 'library names used by the package', not amb,
+           '%d references to library names, %d to ambient state' %
+           (n_ext, len(amb)), detail={'hits': amb[:5]})
+    for site_, path in amb:
+        chk.ob('C16.E', 'reference to %s' % path, False,
+               'ambient state consulted at %s' % site_, site=site_)
+    if n_ext < 100:
+        raise AnalysisError('only %d library references resolved (floor '
+                            '100)' % n_ext)
+    ctl = os.path.join(os.path.dirname(os.path.dirname(os.path.dirname(
+        os.path.abspath(__file__)))), 'selftest', 'controls')
+    tmp = None
+    try:
+        import shutil
+        import tempfile
+        from ..model import Program
+        tmp = tempfile.mkdtemp(prefix='c16ctl-')
+        os.mkdir(os.path.join(tmp, 'pamqp'))
+        shutil.copy(os.path.join(ctl, 'ambient.py'),
+                    os.path.join(tmp, 'pamqp', 'ambient.py'))
+        cprog = Program(tmp)
+        _cn, chits = scan_ambient(cprog, cprog.modules.values())
+    except Exception as err:
+        raise AnalysisError('positive control could not be analysed: %s' %
+                            err)
+    finally:
+        if tmp is not None:
+            shutil.rmtree(tmp, ignore_errors=True)
+    if len(chits) < 6:
+        raise AnalysisError('positive control: only %d of 6 ambient '
+                            'references were flagged' % len(chits))
+    chk.extra['positive_control'] = {'file': 'selftest/controls/ambient.py',
+                                     'flagged': len(chits)}
     # ---- interpreter effects over the entry points
     runs = 0
     bad_effects = []
